@@ -521,13 +521,22 @@ def check_shutdown(rec: Rec, case: dict) -> None:
             if min(ends) > limit:
                 raise Violation("handler-outlives-2T", f"handler of connection {i} ended at {min(ends)}, later than shutdown start {t0} + 2*{ceil_bound(T)}; {desc}")
     late = [e for e in ev if e[1] == "handler-start" and e[2].startswith("/late")]
-    if late:
+    early_race = case["late_after_iters"] < 3  # the request arrives while cleanup() is still stopping the sites: it may or may not be taken on
+    if late and not early_race:
         raise Violation("late-request-handled", f"a request that arrived after the shutdown began reached a handler: {late}; {desc}")
+    for e in late:
+        # ... but a request that IS taken on is answered: its connection is not closed under it
+        i = int(e[2].rsplit("/", 1)[1])
+        if f"quick-{e[2]}".encode() not in out["received"][i]:
+            raise Violation("request-accepted-then-dropped", f"the handler ran for {e[2]} (arrived as the shutdown began) but no response reached the peer: "
+                            f"{out['received'][i][-100:]!r}; {desc}")
     for i, ph in enumerate(case["conns"]):
         if ph["kind"] == "half" and ph.get("late"):
             hs = [e for e in ev if e[1] == "handler-start" and e[2] == f"/quick/{i}" and e[0] >= t0]
-            if hs:
+            if hs and not early_race:
                 raise Violation("late-request-handled", f"a request completed after the shutdown began reached a handler: {hs}; {desc}")
+            if hs and f"quick-/quick/{i}".encode() not in out["received"][i]:
+                raise Violation("request-accepted-then-dropped", f"the handler ran for /quick/{i} (completed as the shutdown began) but no response reached the peer; {desc}")
     if not all(out["final_closed"]):
         raise Violation("connection-open-after-cleanup", f"connections {[i for i, c in enumerate(out['final_closed']) if not c]} are still open after cleanup() returned; {desc}")
     if any(out["handler_alive"]):
@@ -562,7 +571,7 @@ def shutdown_cases(draw):
             ph["pre"] = pre if ph["d"] > 0 else 0.0  # d counts from the shutdown instant; d == 0: done before it
             if ph["d"] == 0.0:
                 ph["d"] = 0.0
-    return {"T": T, "conns": conns, "pre": pre, "hook_raises": draw(st.integers(0, 4)) == 0, "late_after_iters": draw(st.integers(3, 8)),
+    return {"T": T, "conns": conns, "pre": pre, "hook_raises": draw(st.integers(0, 4)) == 0, "late_after_iters": draw(st.sampled_from([0, 1, 2, 3, 3, 4, 5, 8])),
             "hook_sleep": draw(st.sampled_from([None, None, 0.0, 0.0, 0.25, 1.0]))}  # cleanup() yields once before it stops accepting
 
 
